@@ -160,4 +160,16 @@ CHECKS = {
             dict(pkg="dmg", run="TestC11Lock", checks_quick=25, checks_thorough=300, shards_quick=4, shards_thorough=8, timeout_quick=600, timeout_thorough=3000),
         ],
     ),
+    "C09": dict(
+        level="exploration",
+        technique="differential property testing (rapid): every segment file written by generated workloads is decoded and re-encoded byte-for-byte by an independent codec written from the README, on SimFS and on the production fs+bbolt stack (bolt record read with bbolt directly); plus golden directories written once by the pinned version",
+        rule="rapid-generated histories (batches of 1-5 entries covering every padding residue 0-7 and sizes up to 1000, head/tail/everything truncations, reopen) over segment sizes {64..65536}; after every step each live file must parse per the README (aligned zero-padded frames, zero reserved bytes, header == file name == metadata, one commit per acknowledged batch with CRC-32C over the bytes since the previous commit, index offsets == entry frame offsets, metadata IndexStart == index payload offset, Min/Max ranges tiling the model) and equal the README encoding of the model's batches up to the last commit. 9 golden directories from snapshot 26a95c4 must parse, re-encode, open with identical contents and accept an append. Non-trivial = a history with >= 2 batches and a non-zero padding residue (and each golden directory); distinct = FNV-64 of the case",
+        expect_classes=["has-sealed-segment", "many-padding-residues"] + ["golden:" + g for g in ["plain", "multi-segment", "head-truncated-in-segment", "tail-truncated-reappended", "everything-deleted", "everything-deleted-reappended", "high-start-index", "large-entry-over-64KiB", "stable-keys"]],
+        assumptions=COMMON_ASSUME + SIM_ASSUME + ["the first commit's CRC covers the file header as well (the README's 'or just after the file header' is read as the start of the bytes written since the last fsync; the golden fixtures of the pinned version decide)", "the bolt bucket is named wal-meta (the README prose says wal-state; the pinned version and the golden fixtures are the reference)", "when a segment seals is taken from the observed metadata, not predicted"],
+        jobs=[
+            dict(pkg="fmtchk", run="TestC09Sim", checks_quick=300, checks_thorough=6000, shards_quick=8, shards_thorough=16, timeout_quick=600, timeout_thorough=3000),
+            dict(pkg="fmtchk", run="TestC09Real", checks_quick=30, checks_thorough=500, shards_quick=4, shards_thorough=8, timeout_quick=600, timeout_thorough=3000),
+            dict(pkg="fmtchk", run="TestC09Golden", rapid=False, shards=1, timeout=120),
+        ],
+    ),
 }
